@@ -180,10 +180,26 @@ pub fn run(ctx: &Ctx, sh: &mut Shard) {
         } else {
             p
         };
+        // one history in 25: a prepared geometry of realistic size or with a node of high degree (a deep R-tree, many
+        // edge ends at one node), partners derived from it
+        let large = k % 25 == 7;
+        let p = if large {
+            let (x, cls) = gen_large(&mut r);
+            if x.valid() {
+                sh.class(&format!("prepared:{cls}"));
+                x
+            } else {
+                p
+            }
+        } else {
+            p
+        };
         let npool = r.range(2, 8) as usize;
         let pool: Vec<IG> = (0..npool)
             .map(|_| {
-                if r.chance(1, 8) {
+                if large && r.chance(2, 3) {
+                    large_partner(&mut r, &p)
+                } else if r.chance(1, 8) {
                     mixed(&mut r)
                 } else if r.chance(1, 6) {
                     // a partner that meets P only near one of its coordinates, wherever that is
